@@ -294,6 +294,15 @@ def r3_linker_export(R) -> None:
     q = f'{T}.linker_to_dataframes'
     f = Fn(R, q)
     calls = [x for x in ast.walk(f.fi.node) if method_call(x, 'to_dataframe')]
+    # a frame made by calling the module's own export function on a model goes round that model's to_dataframe(): classes
+    # that extend the export (aliases, extra columns) are not consulted
+    lk0 = (f.fi.params() + ['linker'])[0]
+    for x in ast.walk(f.fi.node):
+        if is_call(x, 'model_to_dataframe') and x.args and text(x.args[0]) != lk0:
+            R.violation(q, 'export-bypasses-method:' + text(x.args[0])[:30], f'`{text(x)[:70]}` builds the frame of `{text(x.args[0])}` with the module function instead of '
+                        f'`{text(x.args[0])}.to_dataframe(...)`: a submodel whose class overrides to_dataframe() (AliasMixin renames columns) is exported without it',
+                        where=f'{f.fi.module.relpath}:{x.lineno}')
+            return
     if not R.require(q, len(calls), 'to_dataframe() for the linker and for each submodel', fi=f.fi, minimum=2, pred=lambda x: method_call(x, 'to_dataframe')):
         return
     owners = sorted(text(c.func.value) for c in calls)
